@@ -95,8 +95,12 @@ class FromlistHook(Monitor):
         self.cap = cap
 
     def after(self, token, args, kwargs, result):
-        # classmethod: args = (context, lattice_list, unordered) after cls binding
+        # classmethod: args = (cls, context, stored_list, unordered)
         ctx = common.get_arg(args, kwargs, 1, 'context')
+        if not common.stored_list_in_scope(ctx, common.get_arg(args, kwargs, 2, 'lattice'),
+                                           common.get_arg(args, kwargs, 3, 'unordered', False), self.cap):
+            COL.count('out_of_scope_unordered_list_without_raw')
+            return
         common.tie(result, ctx)
         judge_structure(result, self.cap, 'fromlist')
 
